@@ -195,8 +195,9 @@ fn deserialize<'a>(ty: &OwnedDataModelType, data: &'a [u8]) -> Result<(Value, &'
         } => {
             match &tys[..] {
                 [] => {
-                    // TODO: Not sure this is right...
-                    Ok((Value::Null, data))
+                    // serde_json represents zero-length tuples as `[]`, which is also
+                    // what the dynamic encoder expects for them
+                    Ok((Value::Array(vec![]), data))
                 }
                 [ty] => {
                     // Single item, NOT an array
